@@ -297,7 +297,9 @@ def run_program(prog, chooser, lines=False, policy=(), max_steps=150000):
                 if st_["inbody"] == 0:
                     bad("C09/lost-task", msg)
             # every live, non-retiring worker is now inside a queue read or a task body
-            serving_now = sum(1 for t in s.threads if t.name.startswith("pool-") and t.state == "blocked")
+            # (pool threads are the threads that are not the harness' own: their names are the library's business)
+            own = set(["main"] + ["enq%d" % i for i in range(len(prog["others"]))])
+            serving_now = sum(1 for t in s.threads if t.name not in own and t.state == "blocked")
             if st_["started_returned"] and serving_now < prog["mn"]:
                 bad("C10/below-min-workers", "quiescent moment: %d workers serve the queue with min_threads=%d (%s)" % (serving_now, prog["mn"], s.describe()))
         closed_env = [g for g in env_gates if not g.flag]
@@ -451,6 +453,10 @@ def run_program(prog, chooser, lines=False, policy=(), max_steps=150000):
                     pass
                 sched.emit("op-return", op="future-settle")
             return
+        if not info["begun"] and not must and outcome[0] == "raised" and outcome[1] is not info.get("exc"):
+            # a task the pool discarded before it began carries no obligation: its future may stay pending for ever or be
+            # completed with an exception of the pool's own (a cancellation) - only a *value* would be a lie
+            return
         if not info["ended"]:
             bad("C09/future-early", "future of task %d completed before its body ended" % tid)
         if info["kind"] in ("raise", "partial-raise", "raise-badstr"):
@@ -460,7 +466,12 @@ def run_program(prog, chooser, lines=False, policy=(), max_steps=150000):
             if outcome[0] != "value" or outcome[1] is not info["ret"]:
                 bad("C09/future-outcome", "future of task %d gave %r instead of the returned object" % (tid, outcome))
         if not fut.done():
-            bad("C09/future-not-done", "future of task %d yields a result but done() is False" % tid)
+            # a timed result() may hand out the outcome a moment before the event is set (it stores the outcome first):
+            # between the end of the body and the return of execute() either answer is right (C16) - look again once the
+            # worker has gone on
+            D.sleep(0.001)
+            if not fut.done():
+                bad("C09/future-not-done", "future of task %d yields a result but done() is False" % tid)
 
     try:
         sched.run(main)
